@@ -59,18 +59,13 @@ def opHandle (l : Line) : Except String String := do
   let tag ← l.bytes "tag"
   let gtag ← l.bytes "gtag"
   let probes ← l.bytesList "probe"
-  let lowmap ← DHttpParse.parseMap (l.get "lowmap")
   -- the frontend is built from the *validated* configuration (Gen.Validate.UDP, regenerated from source)
   let vc := Gen.Validate.UDP.validate { PrivateKey_empty := false, MaxNumWant := (← l.nat "maxnw"), DefaultNumWant := (← l.nat "defnw"),
                                          MaxScrapeInfoHashes := (← l.nat "maxscrape") }
   let opts : ParseOpts := { allowIPSpoofing := (← l.bool "spoof"), realIPHeaderSet := false, maxNumWant := vc.MaxNumWant.toNat,
                              defaultNumWant := vc.DefaultNumWant.toNat, maxScrapeInfoHashes := vc.MaxScrapeInfoHashes.toNat }
   let logic ← logicOf l
-  let lower : Bytes → Bytes := fun k =>
-    if Query.isASCII k then Query.asciiLower k
-    else match lowmap.find? (·.1 == k) with
-      | some (_, some v) => v
-      | _ => [0xff, 0xfe, 0xfd]
+  let lower : Bytes → Bytes := Query.asciiLower   -- parseQuery lower-cases ASCII letters only (D27)
   -- the HMAC is supplied by the harness for the two messages the model can ask about
   let m1 := slice pkt 0 4 ++ src
   let m2 := Bytes.be32 ((now / 1000000000) % 2^32).toNat ++ src
@@ -97,16 +92,11 @@ def opEcho (l : Line) : Except String String := do
   let skew ← l.int "skew"
   let tag ← l.bytes "tag"
   let gtag ← l.bytes "gtag"
-  let lowmap ← DHttpParse.parseMap (l.get "lowmap")
   let vc := Gen.Validate.UDP.validate { PrivateKey_empty := false, MaxNumWant := (← l.nat "maxnw"), DefaultNumWant := (← l.nat "defnw"),
                                          MaxScrapeInfoHashes := (← l.nat "maxscrape") }
   let opts : ParseOpts := { allowIPSpoofing := false, realIPHeaderSet := false, maxNumWant := vc.MaxNumWant.toNat,
                              defaultNumWant := vc.DefaultNumWant.toNat, maxScrapeInfoHashes := vc.MaxScrapeInfoHashes.toNat }
-  let lower : Bytes → Bytes := fun k =>
-    if Query.isASCII k then Query.asciiLower k
-    else match lowmap.find? (·.1 == k) with
-      | some (_, some v) => v
-      | _ => [0xff, 0xfe, 0xfd]
+  let lower : Bytes → Bytes := Query.asciiLower   -- parseQuery lower-cases ASCII letters only (D27)
   let m1 := slice pkt 0 4 ++ src
   let m2 := Bytes.be32 ((now / 1000000000) % 2^32).toNat ++ src
   let mac : Mac := fun _ msg => if msg == m1 then tag ++ List.replicate 28 0 else if msg == m2 then gtag ++ List.replicate 28 0 else List.replicate 32 0
